@@ -173,3 +173,210 @@ Proof.
   rewrite (Z.quot_div_nonneg ((ms mod 3600000) mod 60000)), (Z.rem_mod_nonneg ((ms mod 3600000) mod 60000)) by lia.
   Zify.zify. Z.div_mod_to_equations. lia.
 Qed.
+
+(** ** wvtt samples tile the segment *)
+
+(** samples are contiguous from [st] to [e], each of positive duration *)
+Fixpoint tiles (st : Z) (ss : list wsample) (e : Z) : Prop :=
+  match ss with
+  | [] => st = e
+  | x :: r => w_time x = st /\ 0 < w_dur x /\ tiles (st + w_dur x) r e
+  end.
+
+(** the cue samples, in order *)
+Definition cue_samples (ss : list wsample) : list wsample :=
+  filter (fun x => match w_cue x with Some _ => true | None => false end) ss.
+
+Definition sample_of_cue (c : cue) : wsample :=
+  {| w_time := c_start c; w_dur := c_end c - c_start c; w_cue := Some (c_utc c) |}.
+
+Lemma tiles_app st a m b e : tiles st a m -> tiles m b e -> tiles st (a ++ b) e.
+Proof.
+  revert st. induction a as [|x a IH]; intros st Ha Hb; cbn [app tiles] in *.
+  - subst. exact Hb.
+  - destruct Ha as (H1 & H2 & H3). repeat split; try assumption. now apply IH.
+Qed.
+
+Lemma u32_small x : 0 <= x < two32 -> u32 x = x.
+Proof. intros. unfold u32. now apply Z.mod_small. Qed.
+Lemma u64_small' x : 0 <= x < two64 -> u64 x = x.
+Proof. intros. unfold u64. now apply Z.mod_small. Qed.
+
+(** the loop over an ordered, non-overlapping cue list that starts at or after [cur] and ends by [top] *)
+Lemma wvtt_loop_spec top : forall cues cur, 0 <= cur -> top < two64 -> top - cur < two32 ->
+  cues_chain cur top cues ->
+  let '(ss, e) := wvtt_loop cues cur in
+  tiles cur ss e /\ cur <= e <= top /\ cue_samples ss = map sample_of_cue cues.
+Proof.
+  induction cues as [|c rest IH]; intros cur Hcur Htop Hlen Hch; cbn [wvtt_loop cues_chain] in *.
+  - cbn [tiles cue_samples filter map]. repeat split; lia.
+  - destruct Hch as (H1 & H2 & H3).
+    assert (Hend : c_end c <= top).
+    { clear - H3. revert H3. generalize (c_end c). induction rest as [|x r IHr]; intros z; cbn [cues_chain]; [lia|].
+      intros (A & B & C). specialize (IHr _ C). lia. }
+    specialize (IH (c_end c) ltac:(lia) Htop ltac:(lia) H3).
+    destruct (wvtt_loop rest (c_end c)) as [more e]. destruct IH as (IHt & IHe & IHc).
+    rewrite (u64_small' cur), (u32_small (c_start c - cur)), (u64_small' (c_start c)),
+            (u32_small (c_end c - c_start c)) by lia.
+    assert (Hsmp : tiles (c_start c) ({| w_time := c_start c; w_dur := c_end c - c_start c; w_cue := Some (c_utc c) |} :: more) e).
+    { cbn [tiles w_time w_dur]. repeat split; try lia.
+      replace (c_start c + (c_end c - c_start c)) with (c_end c) by lia. exact IHt. }
+    destruct (c_start c >? cur) eqn:Eg.
+    + split; [|split; [lia|]].
+      * cbn [app tiles w_time w_dur]. split; [reflexivity|]. split; [lia|].
+        replace (cur + (c_start c - cur)) with (c_start c) by lia. exact Hsmp.
+      * cbn [app cue_samples filter w_cue map]. fold (cue_samples more). rewrite IHc. reflexivity.
+    + assert (c_start c = cur) by lia.
+      split; [|split; [lia|]].
+      * cbn [app]. rewrite <- H. exact Hsmp.
+      * cbn [app cue_samples filter w_cue map]. fold (cue_samples more). rewrite IHc. reflexivity.
+Qed.
+
+(** C12_wvtt_tiles: for any ordered, non-overlapping cue list inside the segment [s, s+d) (d a uint32,
+    no uint64 wrap) the wvtt samples are contiguous from s, end at s+d (durations sum to d), every
+    cue is exactly one sample with the cue's interval and UTC second, everything else is a vtte gap *)
+Theorem wvtt_samples_tile s d cues : 0 <= s -> 0 <= d < two32 -> s + d < two64 ->
+  cues_chain s (s + d) cues ->
+  tiles s (wvtt_samples s d cues) (s + d) /\
+  cue_samples (wvtt_samples s d cues) = map sample_of_cue cues.
+Proof.
+  intros Hs Hd Hmax Hch. unfold wvtt_samples.
+  pose proof (wvtt_loop_spec (s + d) cues s Hs Hmax ltac:(lia) Hch) as H.
+  destruct (wvtt_loop cues s) as [ss e]. destruct H as (Ht & He & Hc).
+  destruct (e <? s + d) eqn:El.
+  - split.
+    + apply (tiles_app s ss e); [exact Ht|]. cbn [tiles w_time w_dur].
+      rewrite u64_small', u32_small by lia. repeat split; lia.
+    + unfold cue_samples in *. rewrite filter_app. cbn [filter w_cue]. rewrite app_nil_r. exact Hc.
+  - assert (e = s + d) by lia. subst e. split; assumption.
+Qed.
+
+(** sum of the sample durations of a tiling *)
+Fixpoint total_dur (ss : list wsample) : Z := match ss with [] => 0 | x :: r => w_dur x + total_dur r end.
+Lemma tiles_total st ss e : tiles st ss e -> total_dur ss = e - st.
+Proof.
+  revert st. induction ss as [|x r IH]; intros st; cbn [tiles total_dur]; [lia|].
+  intros (H1 & H2 & H3). rewrite (IH _ H3). lia.
+Qed.
+
+(** with the late-start defect the first wvtt sample duration wraps in uint32 *)
+Theorem late_start_wvtt_witness :
+  exists x rest, wvtt_samples 950950 2002
+     [ {| c_start := 950950; c_end := 950900; c_utc := 950 |};
+       {| c_start := 951000; c_end := 951900; c_utc := 951 |};
+       {| c_start := 952000; c_end := 952900; c_utc := 952 |} ] = x :: rest /\ w_dur x = 4294967246.
+Proof. vm_compute. eexists. eexists. split; reflexivity. Qed.
+
+(** ** The whole segment *)
+
+Lemma i64_small x : 0 <= x < two63 -> i64 x = x.
+Proof. intros. unfold i64. rewrite Z.mod_small; unfold two63, two64 in *; lia. Qed.
+
+Lemma chain_bounds lo hi cs : cues_chain lo hi cs ->
+  lo <= hi /\ forall x, In x cs -> lo <= c_start x /\ c_start x < c_end x /\ c_end x <= hi.
+Proof.
+  revert lo. induction cs as [|y r IH]; intros lo; cbn [cues_chain].
+  - intros; split; [lia|intros x []].
+  - intros (A & B & C). destruct (IH _ C) as (D & E). split; [lia|].
+    intros x [<-|Hin]; [lia|]. specialize (E x Hin). lia.
+Qed.
+
+Lemma ttml_id ms : 0 <= ms -> ttml_ms (msToTTML ms) = ms.
+Proof. intros H. pose proof (ttml_roundtrip ms H) as R. destruct (msToTTML ms) as [[[h m] s] f]. tauto. Qed.
+
+(** C12_segment: sequence number, decode time and duration are those of the reference video segment
+    converted to milliseconds by rep2SubsTime; the TTML cues read back from the printed times and the
+    wvtt samples are the specified cue list for the UTC time T + startTime; the wvtt samples tile
+    [T, T+D). Domain: cue duration 1..1000, D a positive uint32, no int64 overflow, and the visible
+    hypothesis (T + startTimeS*1000) mod 1000 < cueDur. *)
+Theorem subs_segment_spec r startS c :
+  let T := rep2SubsTime (r_time r) (r_ts r) in
+  let D := rep2SubsTime (r_dur r) (r_ts r) in
+  let U := T + startS * 1000 in
+  1 <= c <= 1000 -> 0 <= T -> 0 < D < two32 -> 0 <= startS -> U + D < two63 -> U mod 1000 < c ->
+  exists sg, subs_segment r startS c = Ok sg /\
+    s_nr sg = r_nr r /\ s_time sg = T /\ s_dur sg = D /\
+    s_cues sg = cues_spec T D U c /\
+    s_samples sg = wvtt_samples T D (cues_spec T D U c) /\
+    cues_chain T (T + D) (cues_spec T D U c) /\
+    tiles T (s_samples sg) (T + D) /\
+    cue_samples (s_samples sg) = map sample_of_cue (cues_spec T D U c).
+Proof.
+  intros T D U Hc HT HD HS Hmax Hvis.
+  assert (HU : 0 <= U) by (subst U; lia).
+  unfold subs_segment. fold T. fold D.
+  rewrite (u32_small D) by lia.
+  assert (E1 : u64 (startS * 1000) = startS * 1000) by (apply u64_small'; unfold two63, two64 in *; lia).
+  rewrite E1. fold U.
+  rewrite (u64_small' U) by (unfold two63, two64 in *; lia).
+  rewrite (i64_small T), (i64_small U) by (unfold two63 in *; lia).
+  rewrite (calcCueItvls_spec T D U c Hc ltac:(lia) HU). cbn [bind].
+  pose proof (cues_spec_chain T D U c Hc ltac:(lia) HU Hvis) as Hch.
+  replace (T + D) with (T + D) in Hch by reflexivity.
+  destruct (wvtt_samples_tile T D (cues_spec T D U c) HT ltac:(lia) ltac:(unfold two63, two64 in *; lia) Hch) as (Ht & Hcs).
+  eexists. split; [reflexivity|]. cbn [s_nr s_time s_dur s_cues s_samples].
+  repeat split; try assumption.
+  destruct (chain_bounds _ _ _ Hch) as (_ & Hb).
+  rewrite <- (map_id (cues_spec T D U c)) at 2. apply map_ext_in. intros x Hin.
+  destruct (Hb x Hin) as (B1 & B2 & B3).
+  rewrite !ttml_id by lia. destruct x; reflexivity.
+Qed.
+
+(** ** Milliseconds: the exact twins *)
+
+Lemma rep2SubsTime_exact_grid t ts : 0 < ts -> 0 <= t -> (t * 1000) mod ts = 0 ->
+  rep2SubsTime_exact t ts = t * 1000 / ts.
+Proof.
+  intros Hts Ht Hg. unfold rep2SubsTime_exact.
+  apply Z.mod_divide in Hg; [|lia]. destruct Hg as [k Hk].
+  replace (2 * t * 1000 + ts) with (ts + k * (2 * ts)) by lia.
+  rewrite Z.div_add by lia. rewrite Hk, Z.div_mul by lia.
+  rewrite Z.div_small; lia.
+Qed.
+
+(** on the millisecond grid the subtitle segments are contiguous like the video segments *)
+Lemma exact_grid_additive t d ts : 0 < ts -> 0 <= t -> 0 <= d ->
+  (t * 1000) mod ts = 0 -> (d * 1000) mod ts = 0 ->
+  rep2SubsTime_exact (t + d) ts = rep2SubsTime_exact t ts + rep2SubsTime_exact d ts.
+Proof.
+  intros Hts Ht Hd Gt Gd.
+  assert (Gs : ((t + d) * 1000) mod ts = 0).
+  { replace ((t + d) * 1000) with (t * 1000 + d * 1000) by ring.
+    rewrite Z.add_mod, Gt, Gd by lia. reflexivity. }
+  rewrite !rep2SubsTime_exact_grid by (try assumption; lia).
+  apply Z.mod_divide in Gt; [|lia]. apply Z.mod_divide in Gd; [|lia].
+  destruct Gt as [a Ha], Gd as [b Hb].
+  replace ((t + d) * 1000) with ((a + b) * ts) by lia. rewrite Ha, Hb, !Z.div_mul by lia. reflexivity.
+Qed.
+
+(** the $Time$ request of a subtitle segment finds the video segment again (on the grid):
+    nrOrTime * MediaTimescale / 1000 is the video time *)
+Lemma subs_time_to_video_grid t ts : 0 < ts -> 0 <= t -> t * 1000 < two64 -> (t * 1000) mod ts = 0 ->
+  subs_time_to_video (t * 1000 / ts) ts = t.
+Proof.
+  intros Hts Ht Hmax Hg. unfold subs_time_to_video.
+  apply Z.mod_divide in Hg; [|lia]. destruct Hg as [k Hk].
+  rewrite Hk, Z.div_mul by lia.
+  assert (0 <= k) by nia.
+  replace (k * ts) with (t * 1000) by lia.
+  rewrite Z.quot_div_nonneg by lia. replace (t * 1000) with (1000 * t) by ring.
+  rewrite Z.mul_comm, Z.div_mul by lia. apply u64_small'. unfold two64 in *. lia.
+Qed.
+
+(** off the grid it does not: 29.97 fps frames at timescale 30000 (1601.6 ms segments) *)
+Theorem subs_time_to_video_offgrid_witness :
+  let t := 48048 in let ts := 30000 in   (* 48 frames of 1001 ticks = 1.6016 s *)
+  rep2SubsTime t ts = 1602 /\ subs_time_to_video 1602 ts = 48060 /\ 48060 <> t.
+Proof. vm_compute. repeat split; discriminate. Qed.
+
+(** ** MPD: the subtitle timeline mirrors the video timeline *)
+Definition scale_exact (oldTS newTS t : Z) : Z := (2 * t * newTS + oldTS) / (2 * oldTS).
+
+Lemma changeTimelineTimescale_shape oldTS newTS stl :
+  map se_r (changeTimelineTimescale oldTS newTS stl) = map se_r stl /\
+  map se_d (changeTimelineTimescale oldTS newTS stl) = map (fun s => scale_round oldTS newTS (se_d s)) stl /\
+  map se_t (changeTimelineTimescale oldTS newTS stl) = map (fun s => option_map (scale_round oldTS newTS) (se_t s)) stl.
+Proof. unfold changeTimelineTimescale. rewrite !map_map. repeat split. Qed.
+
+Lemma scale_exact_ms ts t : scale_exact ts 1000 t = rep2SubsTime_exact t ts.
+Proof. reflexivity. Qed.
